@@ -937,9 +937,14 @@ func TestCheck(t *testing.T) {
 	col := &collector{run: run, perGroup: map[string]int{}, seen: map[string]bool{}}
 
 	if d := ev.Replay(); d != nil {
+		if k, _ := d.Detail["kind"].(string); k == "stream-reuse" {
+			replayStreamReuse(run, d)
+			run.Finish()
+		}
 		replay(run, col, d)
 		run.Finish()
 	}
+	partStreamReuse(run)
 
 	only, onlyStr := phaseFilter()
 	if onlyStr != "" {
